@@ -354,7 +354,8 @@ structure ReqResult where
   before : List Nat          -- `before_request` hooks called
   routed : Routed
   after : List Nat           -- `after_request` hooks called
-  status : Nat               -- 200, or the status of the `HTTPError` that reaches `_cast`
+  afterRaised : Bool         -- one of them raised: whatever was in flight is replaced
+  status : Nat               -- 200, or the status of the `HTTPError` that reaches `_cast` (500 when `critical`)
   isError : Bool             -- an `HTTPError` reaches `_cast`
   handler : Option Nat       -- the custom error handler `_cast` calls for it (`none`: the default / no error)
   critical : Bool            -- that handler raised: `wsgi` answers its own 500 page
@@ -383,8 +384,9 @@ def App.request (ctx : Ctx) (app : App) (verb path : Str) : App × ReqResult :=
   let (app2, a) := app1.emit ctx.hook "after_request".toList
   let st := match a.error with | some _ => (500, true) | none => st
   let h := if st.2 then app2.errorHandlerFor st.1 else none
-  (app2, { before := b.called, routed := routed, after := a.called, status := st.1, isError := st.2,
-           handler := h, critical := match h with | some x => (ctx.aborts x).isSome | none => false })
+  let crit := match h with | some x => (ctx.aborts x).isSome | none => false
+  (app2, { before := b.called, routed := routed, after := a.called, afterRaised := a.error.isSome, status := if crit then 500 else st.1,
+           isError := st.2, handler := h, critical := crit })
 
 /-! ## 8. the operations of a registration history -/
 
